@@ -130,9 +130,9 @@ def check(ctx):
     jobs = []
     if quick:
         dl = ['--deadline', '55']
-        jobs.append((exe, ['--minm', '2', '--maxm', '4', '--minc', '1', '--maxc', '3'] + dl + out, 'np1', 200))
+        jobs.append((exe, ['--minm', '2', '--maxm', '4', '--minc', '1', '--maxc', '3'] + dl + out, 'np1', 600))
         for sh in (1, 0):
-            jobs.append((wrapped(exe, 2), ['--minm', '3', '--maxm', '3', '--minc', '1', '--maxc', '2', '--short', str(sh), '--skip-all-local'] + dl + out, 'np2-short%d' % sh, 200))
+            jobs.append((wrapped(exe, 2), ['--minm', '3', '--maxm', '3', '--minc', '1', '--maxc', '2', '--short', str(sh), '--skip-all-local'] + dl + out, 'np2-short%d' % sh, 600))
         run_parallel(ctx, jobs, 3)
     else:
         dl = ['--deadline', '800']
